@@ -118,6 +118,33 @@ def run(ctx):
                                 '%s touches %s' % (tag, ','.join(sorted(touched))),
                                 'with no recording or replay scope open the decorator must be pure pass-through',
                                 witness=dom.path_to(n, s), entry=cl.qualname, exit=rm.exit_kind(n)))
+    # ---- C04.h no lock of the recorder is held while user code runs (a body that waits for worker threads which call other
+    #      interceptions would deadlock)
+    chh = res.clause('C04.h', 'R-LOCKSET', 'no recorder lock held while a wrapped body / plug-in runs', floor=1)
+    lock_fields = {f for (c, f), t in rm.RecorderPolicy(ctx.repo, rm.recorder_excm(ctx), roles).field_types.items()
+                   if c == roles.cls.name and t[0] == 'lib' and t[1] in ('threading.Lock', 'threading.RLock', 'threading.Condition', 'threading.Semaphore')}
+    held_sites = []
+    for m in roles.cls.methods.values():
+        for w in [n for n in ast.walk(m.node) if isinstance(n, ast.With)]:
+            for it in w.items:
+                e = it.context_expr
+                fld = e.attr if isinstance(e, ast.Attribute) and isinstance(e.value, ast.Name) and e.value.id == 'self' else None
+                if fld in lock_fields:
+                    # any call inside that is not a call on the lock itself / logging
+                    for x in ast.walk(w):
+                        if isinstance(x, ast.Call) and isinstance(x.func, ast.Name) and x.func.id in m.all_param_names:
+                            held_sites.append((m, x, fld))
+                        if isinstance(x, ast.With) and x is not w:
+                            for it2 in x.items:
+                                c2 = it2.context_expr
+                                if isinstance(c2, ast.Call) and isinstance(c2.func, ast.Attribute) and roles.cls.lookup(c2.func.attr) is roles.interception_cm:
+                                    held_sites.append((m, c2, fld))
+    chh.instance('%d lock field(s) on the recorder; no wrapped function is called inside a `with <lock>` region' % len(lock_fields), roles.cls.name, not held_sites)
+    chh.evaluations += 1
+    for m, x, fld in held_sites[:2]:
+        res.add(Finding('C04', 'C04.h', 'R-LOCKSET', m.file, m.qualname, x.lineno, 'call of %s under self.%s' % (ast.unparse(x)[:60], fld),
+                        'the wrapped function runs while the recorder-wide lock %s is held: a body that fans out to worker threads which call other '
+                        'interceptions (or discard) waits for them for ever' % fld))
     # operation decorator with recording disabled: pass-through (subset of the idle run: paths on which E is false)
     dom = rm.run_closure(ctx, 'operation', 'idle')
     fac, deco, cl = roles.closures['operation']
